@@ -4,6 +4,7 @@ Full statements: `ZV/Props/C20Statements.lean`; a statement counts as proved onl
 of exactly that proposition appears below.
 -/
 import ZV.Props.C20Statements
+import ZV.Proofs.Monadic
 
 namespace ZV.Props.C20
 open ZV.ZCore
@@ -15,6 +16,19 @@ theorem liftId_homomorphic (x : Nat) (a : VTy) (m : C) (v : V) :
     liftIdC (.force v) = .force (liftIdV v) ∧
     liftIdC (.clet x v m) = .clet x (liftIdV v) (liftIdC m) := by
   simp [liftIdC]
+
+/-- Whatever a closed computation returns (a ground value), exits with or traps with, its
+translation at the identity monad does too, with the same output. -/
+theorem identity_forward : Statement.identity_forward := ZV.ZCore.identity_forward_pf
+
+/-- The converse. -/
+theorem identity_backward : Statement.identity_backward := ZV.ZCore.identity_backward_pf
+
+/-- The translated block goes wrong only where the plain one does. -/
+theorem identity_never_wrong : Statement.identity_never_wrong := ZV.ZCore.identity_never_wrong_pf
+
+/-- The identity instance satisfies the left unit law observably. -/
+theorem left_unit : Statement.left_unit := ZV.ZCore.left_unit_pf
 
 namespace Demo
 /-- non-vacuity: `do 0 <- ret (); ret 0` (a user variable named like the instance's own binders)
